@@ -67,7 +67,11 @@ def vclass(spec):
 def column(kind, cells):
     if kind == "f":
         return np.array([float(c) for c in cells], dtype=np.float64)
-    return np.array([str(c) for c in cells], dtype=str)
+    if kind == "i":
+        return np.array([int(float(c)) for c in cells], dtype=np.int64)
+    if kind == "o":  # floats held in an object-dtype array (what set_data_from_df leaves behind next to a text curve)
+        return np.array([float(c) for c in cells], dtype=object)
+    return np.array([str(c) for c in cells], dtype=str)  # "s" text, "n" text whose samples all look like numbers
 
 
 def header_item(it):
@@ -94,7 +98,12 @@ def build(desc):
         for it in desc.get(key, []):
             las.sections[sec].append(header_item(it))
     for mnem, unit, vspec, descr, kind, cells in desc.get("curves", []):
-        las.append_curve(mnem, column(kind, cells), unit=unit, descr=descr, value=vdec(vspec))
+        if kind in ("i", "n", "o"):
+            # dtype given to an existing curve by assignment (as lasio.read(dtypes=...), update_curve or set_data do)
+            las.append_curve(mnem, np.zeros(len(cells)), unit=unit, descr=descr, value=vdec(vspec))
+            las.curves[-1].data = column(kind, cells)
+        else:
+            las.append_curve(mnem, column(kind, cells), unit=unit, descr=descr, value=vdec(vspec))
     if "other" in desc:
         las.other = desc["other"]
     for title, items in desc.get("custom", []):
@@ -329,7 +338,7 @@ CELL_TEXT = st.one_of(
 
 
 @st.composite
-def curve_set(draw, max_curves=5, max_rows=6, inf=False, p_text=4, p_empty=1, collide=True):
+def curve_set(draw, max_curves=5, max_rows=6, inf=False, p_text=4, p_empty=1, collide=True, extra_kinds=()):
     """List of curve descriptions of one common length. p_text / p_empty are chances out of 10 / 20."""
     if roll(draw, 20) < p_empty:
         return []
@@ -363,6 +372,14 @@ def curve_set(draw, max_curves=5, max_rows=6, inf=False, p_text=4, p_empty=1, co
                     cells.append(draw(st.sampled_from(["inf", "-inf"])))
                 else:
                     cells.append(fenc(draw(FINITE)))
+        if extra_kinds and j > 0 and kind == "f" and roll(draw, 4) == 0:
+            k2 = draw(st.sampled_from(list(extra_kinds)))
+            if k2 == "i":
+                kind, cells = "i", [str(draw(st.integers(-1000, 1000))) for _ in range(nr)]
+            elif k2 == "n":
+                kind, cells = "n", [draw(st.sampled_from(["1", "2.5", "-3", "007", "1e3"])) for _ in range(nr)]
+            elif k2 == "o":
+                kind = "o"  # same cells (floats, possibly NaN) in an object array
         vs = draw(st.one_of(st.just(["s", ""]), value_spec(inf=inf)))
         out.append([m, draw(S.unit()), vs, draw(S.field_text()), kind, cells])
     return out
@@ -375,7 +392,7 @@ CUSTOM_TITLES = ["Tops", "Drilling_Definition", "SPECIAL INFORMATION", "extra"]
 
 @st.composite
 def las_desc(draw, inf=False, max_items=4, max_curves=5, max_rows=6, p_text=4, p_empty=1, custom=True,
-             set_defaults=True, index_unit=True, collide=True, drops=False):
+             set_defaults=True, index_unit=True, collide=True, drops=False, extra_kinds=()):
     d = {}
     if drops and roll(draw, 3) == 0:
         d["drop"] = [[draw(st.sampled_from(["Well", "Parameter", "Curves", "Version"])), draw(st.integers(0, 5))]
@@ -404,7 +421,7 @@ def las_desc(draw, inf=False, max_items=4, max_curves=5, max_rows=6, p_text=4, p
         if items:
             d[key] = items
     d["curves"] = draw(curve_set(max_curves=max_curves, max_rows=max_rows, inf=inf, p_text=p_text, p_empty=p_empty,
-                                 collide=collide))
+                                 collide=collide, extra_kinds=extra_kinds))
     o = draw(OTHER_TEXT)
     if o:
         d["other"] = o
